@@ -177,7 +177,7 @@ CHECKS = {
             "when the browser sends no Accept-Encoding, Go's HTTP client inside the proxy may transparently gunzip; the client then correctly receives an identity body without Content-Encoding",
         ],
         "quick": {"rapid_checks": 2000, "timeout": 900},
-        "thorough": {"rapid_checks": 12000, "timeout": 3400, "shards": 8},
+        "thorough": {"rapid_checks": 8000, "timeout": 3400, "shards": 8},
     },
     "C12": {
         "pkg": "./checks/c12",
